@@ -989,6 +989,94 @@ def python_front_end(ctx, quick):
     ctx.part("python", depth=depth, model_states=len(seen), histories=len(hists))
     ctx.count(states=len(seen), transitions=len(hists), validated=len(hists))
 
+# ---------------------------------------------------------------- Python: buffers the wrapper allocates for intent(out) arrays
+EXTENTS = ["n", "n+2", "2*n+1", "n-1", "n*m", "n+m", "(n+1)*2"]
+
+
+def python_out_extent_case(args):
+    """A wrapper that allocates the buffer of an intent(out) array gives the library as many elements as the dimension says, for
+    every extent expression, element type and language: the library checks the usable size of the block it is handed."""
+    workdir, lang = args
+    import sysconfig
+
+    types = ["int", "double", "short"]
+    decls, hdr, src = [], ["#include <stddef.h>"], ["#include <stdlib.h>", "#include <malloc.h>", '#include "ext.h"', "long vt_short = 0;",
+                                                      "long shortBy(void) { long v = vt_short; vt_short = 0; return v; }"]
+    hdr.append("long shortBy(void);")
+    decls.append({"decl": "long shortBy(void)"})
+    calls = []
+    for ti, t in enumerate(types):
+        for ei, e in enumerate(EXTENTS):
+            name = "fill_%d_%d" % (ti, ei)
+            d = "void %s(int n, int m, %s *out +intent(out)+dimension(%s))" % (name, t, e)
+            decls.append({"decl": d})
+            hdr.append("void %s(int n, int m, %s *out);" % (name, t))
+            src.append("void %s(int n, int m, %s *out) { long need = (long) sizeof(%s) * (%s); long have = (long) malloc_usable_size(out);"
+                       " if (have < need) vt_short += need - have; else for (long k = 0; k < (%s); k++) out[k] = (%s) (k + 1); }" % (name, t, t, e, e, t))
+            calls.append((name, t, e))
+    y = {"library": "ext", "cxx_header": "ext.h", "options": {"wrap_c": False, "wrap_fortran": False, "wrap_lua": False, "wrap_python": True, "PY_array_arg": "list"},
+         "declarations": decls}
+    if lang == "c":
+        y["language"] = "c"
+    os.makedirs(workdir)
+    r, tree = gen.gen_tree(workdir, y, keep=True)
+    if r.status != "ok":
+        shutil.rmtree(workdir, ignore_errors=True)
+        return [("python out-extent generate %s" % lang, "generation failed: %s %s" % (r.exc, (r.msg or "")[:300]))], 0
+    out = os.path.join(workdir, "out")
+    ext = "c" if lang == "c" else "cpp"
+    open(os.path.join(out, "ext.h"), "w").write("\n".join(hdr) + "\n")
+    open(os.path.join(out, "subject." + ext), "w").write("\n".join(src) + "\n")
+    drv = ["import ext"]
+    exp = []
+    for name, t, e in calls:
+        for n, m in ((1, 1), (3, 2), (5, 4), (8, 1)):
+            cnt = eval(e, {"n": n, "m": m})
+            drv.append("r = ext.%s(%d, %d); print('OBS %s %d %d', ext.shortBy(), len(r), r[:2])" % (name, n, m, name, n, m))
+            first = [1, 2][:cnt] if t != "double" else [1.0, 2.0][:cnt]
+            exp.append(("OBS %s %d %d" % (name, n, m), "0 %d %r" % (cnt, first), t, e))
+    open(os.path.join(out, "driver.py"), "w").write("\n".join(drv) + "\n")
+    errs = []
+    try:
+        csrc = sorted(f for f in os.listdir(out) if f.endswith("." + ext))
+        objs = build.compile_c_family(out, csrc, lang, incs=[sysconfig.get_paths()["include"]], extra=["-fPIC"])
+        rc, so, se = build.sh(["gcc" if lang == "c" else "g++", "-shared", "-o", "ext.so"] + objs, out)
+        if rc != 0:
+            raise build.BuildError("link", se[:800])
+    except build.BuildError as e:
+        shutil.rmtree(workdir, ignore_errors=True)
+        return [("python out-extent build %s" % lang, str(e)[:900])], 0
+    rc, so, se = build.sh(["/venv/bin/python", "driver.py"], out, env=dict(os.environ, PYTHONDONTWRITEBYTECODE="1"), timeout=120)
+    got = {}
+    for l in so.split("\n"):
+        if l.startswith("OBS "):
+            p_ = l.split(" ", 4)
+            got[" ".join(p_[:4])] = p_[4] if len(p_) > 4 else ""
+    if rc != 0:
+        errs.append(("python out-extent run %s" % lang, "driver exit %d: %s" % (rc, (se or "")[-300:])))
+    seen = set()
+    for tag, want, t, e in exp:
+        g = got.get(tag, "(missing)")
+        if g != want and (t, e) not in seen:
+            seen.add((t, e))
+            what = "the wrapper's buffer is %s bytes short of" % g.split()[0] if g.split() and g.split()[0] not in ("0", "(missing)") else "got %r for" % g
+            errs.append(("python out-extent %s dimension(%s) [%s]" % (t, e, lang), "%s: %s %s *out +intent(out)+dimension(%s): (bytes short, length, first values) expected %r" % (
+                tag, what, t, e, want)))
+    shutil.rmtree(workdir, ignore_errors=True)
+    return errs, len(exp)
+
+
+def python_out_extents(ctx):
+    res = isolate.pmap(python_out_extent_case, [(os.path.join(ctx.subdir("pyext"), lang), lang) for lang in ("c", "cxx")], ctx.workers)
+    n = 0
+    for errs, k in res:
+        n += k
+        for key, msg in errs:
+            ctx.violation(key, msg, {"kind": "python-out-extent"})
+    ctx.part("python_out_extents", extents=EXTENTS, element_types=["int", "double", "short"], languages=["c", "cxx"], calls=n)
+    ctx.count(transitions=n, validated=n)
+
+
 # ---------------------------------------------------------------- the Fortran front end
 def f_expand(m, op):
     """Model operations a Fortran-level operation stands for (results are fetched and released in one call)."""
@@ -1426,6 +1514,7 @@ def run(ctx):
             ctx.violation("fortran asan %s" % key_for(hist, se), "Fortran history %s under AddressSanitizer: %s" % (" ".join(hist), se[:700].replace("\n", " | ")),
                           {"kind": "fortran-asan", "history": list(hist)})
     python_front_end(ctx, quick)
+    python_out_extents(ctx)
     same_name_classes(ctx, quick)
     ctx.part("fortran", depth=fdepth, model_states=len(fseen), transitions_executed=len(fh), asan_histories=len(fah))
     ctx.count(states=len(fseen), transitions=len(fh) + len(fah), validated=len(fh) + len(fah))
